@@ -339,6 +339,11 @@ fn vmess_malformed_headers(s: &mut Session, cr: &mut Crafter, rng: &mut Rng, tho
 
 pub fn generate(s: &mut Session, tier: &str, rng: &mut Rng) {
     let thorough = tier == "thorough";
+    // authentic VMess headers of unusual shapes at both ends (a response header without any byte, tokens at the edges of
+    // their window): refused or accepted, never a panic
+    if let Some(mut cr) = crate::craft::Crafter::new() {
+        crate::c10::vm_cases(s, &mut cr, rng);
+    }
     let mut targets = vec![];
     for cipher in CIPHERS {
         targets.push(Target::SsServer { cipher, users: false });
